@@ -34,6 +34,7 @@ func main() {
 			palsd.Case(w, rng, i, *maxLen)
 		}
 		palsd.GapSeries(w, 40+*n/5)
+		palsd.StrandSeries(w, 150+*n/4)
 	}
 	w.Close()
 	fmt.Printf("records=%d\n", w.N)
